@@ -47,6 +47,7 @@ def main (args : List String) : IO UInt32 := do
   | "C09sys" :: rest => Driver.C08.mainSys rest; return 0
   | "C09" :: rest => Driver.Mux.main rest; return 0
   | "C11" :: rest => Driver.Mux.main rest; return 0
+  | "C11fin" :: rest => Driver.Mux.main rest; return 0
   | "C09late" :: rest => Driver.Mux.mainLate rest; return 0
   | "C16" :: rest => Driver.C16.main rest; return 0
   | "C17q" :: rest => Driver.C17.mainQ rest; return 0
